@@ -36,7 +36,8 @@ class Obs : public SQuIDS {
   std::vector<SU_vector> H;
   Obs(unsigned nx, unsigned d, double ti) : SQuIDS(nx, d, 2, 0, ti) {}
   Obs(Obs&& other) : SQuIDS(std::move(static_cast<SQuIDS&>(other))), H(other.H) {}
-  SU_vector H0(double x, unsigned int irho) const override { return (4.0 * x) * H[irho]; }
+  // (an index outside 0..nrhos-1 can only come from a defect in the library: answer with some OTHER operator rather than crash here)
+  SU_vector H0(double x, unsigned int irho) const override { return irho < H.size() ? SU_vector((4.0 * x) * H[irho]) : SU_vector((4.0 * x + 1.0 + irho) * (H[0] + H[1])); }
   double perturb = 0;      // mode 2 only: a strong interaction while the refused Evolve runs
   SU_vector HI(unsigned int ix, unsigned int irho, double t) const override {
     SU_vector h(nsun);
